@@ -44,6 +44,8 @@ ACCESS_RE = re.compile(
     r"self\.registry|sys\.modules|module_cache|_pkg_digest|"
     r"self\.cook_check\(\)|self\.cook\(|self\.content_type|"
     r"self\.source\b|self\.body\b|self\._v_\w+")
+LOADER_WRITE_RE = re.compile(r"\bself\.\w+(\[[^\]]*\])?\s*[-+]?=(?!=)|"
+                             r"\bself\.\w+,\s*\w+\s*=(?!=)")
 _access_cache: dict = {}
 from threading import get_ident as _get_ident  # noqa: E402
 
@@ -53,7 +55,14 @@ def is_access(code, line: int) -> bool:
     v = _access_cache.get(key)
     if v is None:
         import linecache
-        v = bool(ACCESS_RE.search(linecache.getline(code.co_filename, line)))
+        text = linecache.getline(code.co_filename, line)
+        v = bool(ACCESS_RE.search(text))
+        if not v and code.co_filename.endswith(
+                os.sep + "chameleon" + os.sep + "loader.py") and \
+                code.co_name != "__init__":
+            # a loader is shared by every thread that loads through it:
+            # whatever one of its methods writes to it is shared state
+            v = bool(LOADER_WRITE_RE.search(text))
         _access_cache[key] = v
     return v
 _kind_cache: dict = {}
@@ -262,10 +271,28 @@ def _on_line(code, line):
         base = os.path.basename(code.co_filename)
         if _state["focus"] and base in ("utils.py", "tal.py", "i18n.py"):
             return None
+        acc = is_access(code, line)
+        if base == "loader.py":
+            # (a thread may also lose the processor right *after* it wrote
+            # to the shared loader: the line that follows such a write is a
+            # change point as well)
+            if _after_write.pop(t, None) is code:
+                acc = True
+            if acc and name != "__init__" and LOADER_WRITE_RE.search(
+                    _line_text(code, line)):
+                _after_write[t] = code
         sched.yield_point(
             "line:%s:%s:%d" % (base, name, line),
-            interesting=name in SHARED_FUNCS, access=is_access(code, line))
+            interesting=name in SHARED_FUNCS, access=acc)
     return None
+
+
+_after_write: dict = {}
+
+
+def _line_text(code, line: int) -> str:
+    import linecache
+    return linecache.getline(code.co_filename, line)
 
 
 def _all_code(obj, seen: set):
